@@ -107,3 +107,11 @@ Proof.
   apply Hcat.
 Qed.
 
+
+Lemma C03_ersatz_pwrite_all_proof :
+  forall data off file script, no_err script = true -> data <> [] ->
+  exists o', ersatz_pwrite data off file (os_init [] script) = (Ok (overwrite file off data), o').
+Proof.
+  intros data off file script H Hd. destruct (ersatz_pwrite_ok data off file (os_init [] script) H Hd) as (o' & E & _).
+  exists o'. exact E.
+Qed.
